@@ -675,10 +675,18 @@ func (o *Options) GetWriteBuffer() int {
 }
 
 func (o *Options) GetWriteL0PauseTrigger() int {
-	if o == nil || o.WriteL0PauseTrigger == 0 {
-		return DefaultWriteL0PauseTrigger
+	trigger := DefaultWriteL0PauseTrigger
+	if o != nil && o.WriteL0PauseTrigger != 0 {
+		trigger = o.WriteL0PauseTrigger
 	}
-	return o.WriteL0PauseTrigger
+	// A paused writer waits for a table compaction, and level-0 is only
+	// compacted once it holds CompactionL0Trigger tables: pausing earlier
+	// makes the writer wait, in a busy loop, for a compaction that is never
+	// considered necessary.
+	if c := o.GetCompactionL0Trigger(); trigger < c {
+		trigger = c
+	}
+	return trigger
 }
 
 func (o *Options) GetWriteL0SlowdownTrigger() int {
